@@ -1,8 +1,11 @@
 //! vvh - conformance harness binding the TLA+ specifications in /verif/spec to meshless_voronoi.
+mod aux;
 mod clip;
 mod common;
+mod helpers;
 mod latt;
 mod nn;
+mod poly;
 mod pred;
 mod probe;
 mod sched;
@@ -22,6 +25,9 @@ fn main() {
         "nn" => nn::main_nn(rest),
         "clip" => clip::main_clip(rest),
         "pred" => pred::main_pred(rest),
+        "poly" => poly::main_poly(rest),
+        "helpers" => helpers::main_helpers(rest),
+        "aux" => aux::main_aux(rest),
         "tokens" => latt::main_tokens(rest),
         "dump-lattice" => latt::main_dump(rest),
         other => {
